@@ -605,6 +605,8 @@ func carrier(kind, arg string) (*S, string) {
 		return &S{"leaf", "x", []*S{{"type", "int32", []*S{{"range", arg, nil}}}}}, "range"
 	case "length":
 		return &S{"leaf", "x", []*S{{"type", "string", []*S{{"length", arg, nil}}}}}, "length"
+	case "pattern":
+		return &S{"leaf", "x", []*S{{"type", "string", []*S{{"pattern", arg, nil}}}}}, "pattern"
 	}
 	panic("no carrier for " + kind)
 }
@@ -628,6 +630,9 @@ var validArgs = map[string][]string{
 	"unique":          {"a", "a b", "a/b", "a/b c/d", "p:a/q:b  c", "a\tb\nc"},
 	"range":           {"1", "1..10", "min..max", "min..10", "1..max", "1|2", "1 | 2", "1..2|4..5", "1 .. 2 | 4 .. 5", "-5..5", "-10..-5", "0", "min", "max", "1.5..2.5", "-0.5..0.5", "1..2|3|4..max", "1\n..\n2", "0.01..99.99", "-1.05..1.05", "1.00..2.00", "min..0.001 | 0.5", "0.0", "10.010", "0.007"},
 	"length":          {"1", "1..10", "min..max", "min..10", "1..max", "1|2", "1 | 2", "1..2|4..5", "1 .. 2 | 4 .. 5", "0", "min", "max", "0..0", "1..2|3|4..max"},
+	"pattern": {"a", "abc", "a*", "a+b?", "(a|b)*", "[a-z]+", "[^0-9]", "a{2}", "a{2,}", "a{2,5}", "\\d+", "\\w*\\s\\S", "a|b|c", "(ab)+|c", "[a-zA-Z_][a-zA-Z0-9_.-]*",
+		"\\p{L}+", "\\P{Nd}", "\\p{IsBasicLatin}*", ".*", "a.b", "\\.", "\\(a\\)", "[\\-a]", "[a\\]]", "((a))", "()", "a|", "|a", "", "[-a]", "[a-]", "é+", "[à-ü]", "x(y(z)?)*",
+		"[0-9]{1,3}(\\.[0-9]{1,3}){3}", "\\[a\\]", "\\{", "a\\|b", "\\n\\r\\t", "[\\d.]+", "(a|b|)c", "a{0}", "a{0,0}", "\\^a", "[a^]", "[\\^a]"},
 }
 
 var nearMisses = map[string][]string{
@@ -649,6 +654,9 @@ var nearMisses = map[string][]string{
 	"unique":          {"", " ", "/a", "a/ b", "a /b", "a//b", "1a", "a,b", "p:", "a:b:c", "xml", "a xmlb/c", "é", "a é", "a/", "a b/", "a\u00a0b", "a\fb/c", "a/b\vc"},
 	"range":           {"", "abc", "1..", "..1", "1...2", "1..2..3", "1|", "|1", "1||2", "1 0..2 0", "1 0", "- 1", "0x10", "1_0", "+1", "01", "1e3", "1.", ".5", "1.5.2", "MIN", "Max", "min..min..max", "1;2", "1,2", "1-2", "1..2|", "minmax", "１", "1..2 3", "1.. 2..3", "a..b", "1..b", "--1", "1..+2"},
 	"length":          {"", "abc", "1..", "..1", "1...2", "1..2..3", "1|", "|1", "1||2", "1 0..2 0", "1 0", "-1", "-1..5", "0x10", "1_0", "+1", "01", "1e3", "1.5", "1.0", "MIN", "Max", "1;2", "1,2", "1-2", "1..2|", "minmax", "１", "1..2 3", "a..b", "0o7", "0b1", "1..0x5"},
+	"pattern": {"(", ")", "a(", "a)", "(a", "a)b", "((a)", "(a))", "a)(b", ")(", "a)|(b", "a)*(b", "x)(y)(z", ")|(", "a)?(", "[", "a[", "[a", "[a-", "[z-a]", "[9-0]", "[^", "*", "+", "?", "*a", "+a", "?a",
+		"(*a)", "(+)", "a|*b", "a|+", "a**", "a+*", "a*+", "a{2}{3}", "a{2}*", "a{2,1}", "a{5,2}", "\\", "a\\", "\\q", "\\e", "\\y", "\\j", "\\k", "a\\qb", "\\p", "\\p{", "\\p{L", "\\p{Foo}",
+		"\\P{Xx}", "\\pL}", "[a\\q]", "[\\", "(a|b", "a|b)", "(a|(b)", "[a-z", "[a-z]]", "a]", "]", "a)(b)(c", "(a)(b))((c)"},
 }
 
 func checkArg(c ArgCase) fw.Outcome {
@@ -684,6 +692,9 @@ func checkArg(c ArgCase) fw.Outcome {
 		}
 	}
 	want := argVerdict(c.Kind, arg)
+	if c.Kind == "pattern" {
+		want = patternVerdict(arg)
+	}
 	if want == 0 && (c.Kind == "key" || c.Kind == "unique" || c.Kind == "range" || c.Kind == "length") {
 		// recorded known findings: accepted although not in the ABNF
 		trimmed := strings.Trim(arg, " \t\r\n")
@@ -758,6 +769,9 @@ func init() {
 var editChars = []string{"", " ", "+", "-", "0", "1", "x", "_", ".", "/", ":", "|", "a", "é", "\t", "A", "9", "..", "0x", "e",
 	"\v", "\f", "\u0085", "\u00a0", "\u2003", "\u3000", "\u0665", "\uff11", "\uff0d", "\r", "\n"}
 
+// patEditChars: the metacharacters of the pattern language and a few ordinary characters
+var patEditChars = []string{"(", ")", "[", "]", "*", "+", "?", "{", "}", "\\", "|", "-", "^", ".", ",", "a", "1", "é", " ", "\\d", "\\q", ")(", "(a", "b)", "{2}", "{3,1}"}
+
 func genArg(t *rapid.T) ArgCase {
 	kind := argKinds[rapid.IntRange(0, len(argKinds)-1).Draw(t, "kind")]
 	pool := validArgs[kind]
@@ -766,12 +780,16 @@ func genArg(t *rapid.T) ArgCase {
 	}
 	s := pool[rapid.IntRange(0, len(pool)-1).Draw(t, "base")]
 	// zero to two character-level edits
+	chars := editChars
+	if kind == "pattern" {
+		chars = patEditChars
+	}
 	for e := rapid.IntRange(0, 2).Draw(t, "edits"); e > 0; e-- {
 		rs := []rune(s)
 		pos := rapid.IntRange(0, len(rs)).Draw(t, "pos")
 		switch rapid.IntRange(0, 3).Draw(t, "edit") {
 		case 0: // insert
-			ins := []rune(editChars[rapid.IntRange(0, len(editChars)-1).Draw(t, "ins")])
+			ins := []rune(chars[rapid.IntRange(0, len(chars)-1).Draw(t, "ins")])
 			rs = append(rs[:pos:pos], append(ins, rs[pos:]...)...)
 		case 1: // delete
 			if pos < len(rs) {
@@ -799,8 +817,11 @@ func genArg(t *rapid.T) ArgCase {
 var argProp = fw.Register(&fw.Prop[ArgCase]{
 	ID: "C09", Name: "arg",
 	Rule: "per argument kind (identifier, identifier-ref, date, boolean, integer, non-negative integer, max-value, status, ordered-by, deviate, fraction-digits, yang-version, key, unique, " +
-		"absolute and descendant schema node id, range, length): strings of the RFC 6020 section 12 ABNF and near misses (case, sign, leading zeros, 0x/0o/0b/underscore forms, blanks, " +
+		"absolute and descendant schema node id, range, length, pattern): strings of the RFC 6020 section 12 ABNF and near misses (case, sign, leading zeros, 0x/0o/0b/underscore forms, blanks, " +
 		"empty, doubled separators, non-ASCII letters and digits) with 0-2 further character edits, carried by a minimal valid statement; oracle: regular expressions transcribed from the ABNF; " +
+		"for pattern, strings over the metacharacters of the XML Schema regular expression language (groups, classes, ranges, quantifiers, escapes, category escapes) and near misses (unbalanced " +
+		"or crossed parentheses, open classes, reversed ranges, quantifiers without atom or doubled, unknown escapes and categories); oracle: a recogniser of XML Schema Part 2 Appendix F " +
+		"where the regexp library agrees with it on the bare pattern, the rest is grey; " +
 		"a rejection must give the location of the carrying statement or its parent; grey (calendar validity, 32-bit range) skipped; distinct by (kind, string)",
 	Gen: genArg, Check: checkArg,
 	MinLabel: []string{"abnf:valid", "abnf:invalid"},
